@@ -963,6 +963,7 @@ static void run_op(int client, const json &op, OpResult &r)
 	std::string name = op.contains("name") ? bytes_of(op["name"]) : std::string();
 	unsigned idx = op.value("idx", 0u);
 	bool want_dump = E->opts.dump_each;
+	bool alt = op.value("alt", 0) != 0;
 
 	if (kind == "parse") {
 		const json &src = op["src"];
@@ -998,11 +999,25 @@ static void run_op(int client, const json &op, OpResult &r)
 			LIBCALL(op, r.ret = cfg_parse(cfg, path.c_str()));
 		}
 	} else if (kind == "setint") {
-		LIBCALL(op, r.ret = cfg_setnint(cfg, name.c_str(), op["v"].get<long>(), idx));
+		// "alt": the equivalent entry point without an index (cfg_setint is cfg_setnint(..., 0)), where there is one
+		if (alt && idx == 0)
+			LIBCALL(op, r.ret = cfg_setint(cfg, name.c_str(), op["v"].get<long>()));
+		else
+			LIBCALL(op, r.ret = cfg_setnint(cfg, name.c_str(), op["v"].get<long>(), idx));
 	} else if (kind == "setfloat") {
-		LIBCALL(op, r.ret = cfg_setnfloat(cfg, name.c_str(), op["v"].get<double>(), idx));
+		if (alt && idx == 0)
+			LIBCALL(op, r.ret = cfg_setfloat(cfg, name.c_str(), op["v"].get<double>()));
+		else
+			LIBCALL(op, r.ret = cfg_setnfloat(cfg, name.c_str(), op["v"].get<double>(), idx));
 	} else if (kind == "setbool") {
-		LIBCALL(op, r.ret = cfg_setnbool(cfg, name.c_str(), op["v"].get<bool>() ? cfg_true : cfg_false, idx));
+		if (alt && idx == 0)
+			LIBCALL(op, r.ret = cfg_setbool(cfg, name.c_str(), op["v"].get<bool>() ? cfg_true : cfg_false));
+		else
+			LIBCALL(op, r.ret = cfg_setnbool(cfg, name.c_str(), op["v"].get<bool>() ? cfg_true : cfg_false, idx));
+	} else if (kind == "setstr" && alt && idx == 0 && !op.value("self", false)) {
+		std::string v = op["v"].is_null() ? std::string() : bytes_of(op["v"]);
+		const char *vp = op["v"].is_null() ? nullptr : v.c_str();
+		LIBCALL(op, r.ret = cfg_setstr(cfg, name.c_str(), vp));
 	} else if (kind == "setstr") {
 		std::string v = op["v"].is_null() ? std::string() : bytes_of(op["v"]);
 		const char *vp = op["v"].is_null() ? nullptr : v.c_str();
@@ -1055,15 +1070,25 @@ static void run_op(int client, const json &op, OpResult &r)
 		LIBCALL(op, s = cfg_addtsec(cfg, name.c_str(), title.c_str()));
 		r.ret = s ? 0 : -1;
 	} else if (kind == "rmnsec") {
-		LIBCALL(op, r.ret = cfg_rmnsec(cfg, name.c_str(), idx));
+		// "alt": through the option pointer, which is what the by-name call does after looking the name up
+		if (alt)
+			LIBCALL(op, r.ret = cfg_opt_rmnsec(cfg_getopt(cfg, name.c_str()), idx));
+		else
+			LIBCALL(op, r.ret = cfg_rmnsec(cfg, name.c_str(), idx));
 	} else if (kind == "rmtsec") {
 		std::string title = bytes_of(op["title"]);
-		LIBCALL(op, r.ret = cfg_rmtsec(cfg, name.c_str(), title.c_str()));
+		if (alt)
+			LIBCALL(op, r.ret = cfg_opt_rmtsec(cfg_getopt(cfg, name.c_str()), title.c_str()));
+		else
+			LIBCALL(op, r.ret = cfg_rmtsec(cfg, name.c_str(), title.c_str()));
 	} else if (kind == "rmsec") {
 		LIBCALL(op, r.ret = cfg_rmsec(cfg, name.c_str()));
 	} else if (kind == "setcomment") {
 		std::string t = bytes_of(op["text"]);
-		LIBCALL(op, r.ret = cfg_setcomment(cfg, name.c_str(), (char *)t.c_str()));
+		if (alt)
+			LIBCALL(op, r.ret = cfg_opt_setcomment(cfg_getopt(cfg, name.c_str()), (char *)t.c_str()));
+		else
+			LIBCALL(op, r.ret = cfg_setcomment(cfg, name.c_str(), (char *)t.c_str()));
 	} else if (kind == "addpath") {
 		std::string d = bytes_of(op["dir"]);
 		LIBCALL(op, r.ret = cfg_add_searchpath(cfg, d.c_str()));
@@ -1107,6 +1132,69 @@ static void run_op(int client, const json &op, OpResult &r)
 			if (o)
 				for (unsigned k = 0; k < cfg_opt_size(o) && k < 8; k++)
 					acc += " " + value_repr(o, k);
+			// every by-name accessor must agree with its by-option counterpart (single-level names only)
+			if (o && name.find_first_of("|='") == std::string::npos) {
+				auto bad = [&](const std::string &what) { acc += " MISMATCH(" + what + ")"; };
+				unsigned n = cfg_opt_size(o);
+				if (cfg_size(cfg, nm) != n)
+					bad("cfg_size");
+				if (!cfg_opt_name(o) || (strcmp(cfg_opt_name(o), nm) != 0 && strcasecmp(cfg_opt_name(o), nm) != 0))
+					bad("cfg_opt_name");
+				if (cfg_getcomment(cfg, nm) != cfg_opt_getcomment(o))
+					bad("cfg_getcomment");
+				for (unsigned k = 0; k <= n && k < 9; k++) { // k == n: one past the end, both must answer alike
+					switch (o->type) {
+					case CFGT_INT:
+						if (cfg_getnint(cfg, nm, k) != cfg_opt_getnint(o, k) || (k == 0 && cfg_getint(cfg, nm) != cfg_opt_getnint(o, 0)))
+							bad("cfg_getnint");
+						break;
+					case CFGT_FLOAT: {
+						double a = cfg_getnfloat(cfg, nm, k), b2 = cfg_opt_getnfloat(o, k), c0 = k == 0 ? cfg_getfloat(cfg, nm) : b2;
+						if (memcmp(&a, &b2, sizeof a) != 0 || memcmp(&c0, &b2, sizeof c0) != 0)
+							bad("cfg_getnfloat");
+						break;
+					}
+					case CFGT_BOOL:
+						if (cfg_getnbool(cfg, nm, k) != cfg_opt_getnbool(o, k) || (k == 0 && cfg_getbool(cfg, nm) != cfg_opt_getnbool(o, 0)))
+							bad("cfg_getnbool");
+						break;
+					case CFGT_STR:
+						if (cfg_getnstr(cfg, nm, k) != cfg_opt_getnstr(o, k) || (k == 0 && cfg_getstr(cfg, nm) != cfg_opt_getnstr(o, 0)))
+							bad("cfg_getnstr");
+						break;
+					case CFGT_PTR:
+						if (cfg_getnptr(cfg, nm, k) != cfg_opt_getnptr(o, k) || (k == 0 && cfg_getptr(cfg, nm) != cfg_opt_getnptr(o, 0)))
+							bad("cfg_getnptr");
+						break;
+					case CFGT_SEC: {
+						cfg_t *s = cfg_opt_getnsec(o, k);
+						if (cfg_getnsec(cfg, nm, k) != s || (k == 0 && cfg_getsec(cfg, nm) != s))
+							bad("cfg_getnsec");
+						if (s && (!cfg_name(s) || strcmp(cfg_name(s), cfg_opt_name(o)) != 0))
+							bad("cfg_name");
+						if (s && cfg_title(s) && (o->flags & CFGF_TITLE)) {
+							cfg_t *t1 = cfg_gettsec(cfg, nm, cfg_title(s)), *t2 = cfg_opt_gettsec(o, cfg_title(s));
+							if (t1 != t2 || !t1 || !cfg_title(t1) || strcasecmp(cfg_title(t1), cfg_title(s)) != 0)
+								bad("cfg_gettsec");
+						}
+						break;
+					}
+					default:
+						break;
+					}
+				}
+				// the options of a context can be enumerated: as many as cfg_num() says, this one among them
+				unsigned total = cfg_num(cfg), seen = 0;
+				for (unsigned k = 0; k < total + 2; k++) {
+					cfg_opt_t *e = cfg_getnopt(cfg, k);
+					if ((k < total) != (e != nullptr))
+						bad("cfg_getnopt");
+					if (e == o)
+						seen++;
+				}
+				if (seen != 1)
+					bad("cfg_getnopt:self");
+			}
 		});
 		r.sres = acc;
 		r.has_sres = true;
